@@ -21,7 +21,8 @@ Unit syntax: ordinary Verus text, copied verbatim, interleaved with directives:
      //@spec                      following lines go between signature and body
      //@loop <n>                  following lines go before the '{' of the n-th loop (source order, 1-based)
      //@afterloop <n>             following lines go right after the closing '}' of the n-th loop
-     //@before <n> "<substr>"     following lines go before the line containing the n-th occurrence of substr
+     //@bodystart                 following lines go right after the body's opening '{'
+     //@before <n> "<substr>"     (a substr starting with ^ matches the n-th line that *starts* with the rest) following lines go before the line containing the n-th occurrence of substr
      //@after  <n> "<substr>"     ... after the *statement line* containing it
   //@end
 
@@ -184,6 +185,15 @@ def _depth(m, pos):
     return d
 
 
+def _count_ok(found, count):
+    """declared count: an exact number, '+' (at least one) or '*' (any)"""
+    if count == "+":
+        return found >= 1
+    if count == "*":
+        return True
+    return found == int(count)
+
+
 class Chunk:
     def __init__(self, text, origin):
         self.text = text if text.endswith("\n") else text + "\n"
@@ -253,19 +263,22 @@ def weave(unit_path, repo, verif_root, vacuity=False):
                 elif d.startswith("hoist "):
                     opts["hoist"].append(d[6:].strip())
                 elif d.startswith("sub ") or d.startswith("resub "):
-                    mt = re.match(r'(re)?sub\s+(\S+)\s+(\d+)\s+(".*?"|/.*?/)\s+=>\s+"(.*)"\s*$', d)
+                    mt = re.match(r'(re)?sub\s+(\S+)\s+(\d+|\+|\*)\s+(".*?"|/.*?/)\s+=>\s+"(.*)"\s*$', d)
                     if not mt:
                         raise LostAnchor("%s:%d: bad sub directive" % (unit_path, i))
                     frm = mt.group(4)[1:-1]
                     to = mt.group(5).replace("\\n", "\n").replace('\\"', '"')
                     frm = frm.replace('\\"', '"') if not mt.group(1) else frm
-                    opts["subs"].append((bool(mt.group(1)), mt.group(2), int(mt.group(3)), frm, to))
+                    opts["subs"].append((bool(mt.group(1)), mt.group(2), mt.group(3), frm, to))
                 elif d == "spec":
                     blk, i = _read_block(lines, i)
                     opts["spec"] += blk
                 elif d.startswith("loop "):
                     blk, i = _read_block(lines, i)
                     opts["loops"][int(d[5:].strip())] = blk
+                elif d == "bodystart":
+                    blk, i = _read_block(lines, i)
+                    opts["bodystart"] = blk
                 elif d.startswith("afterloop "):
                     blk, i = _read_block(lines, i)
                     opts["afterloops"][int(d[10:].strip())] = blk
@@ -341,16 +354,16 @@ def _do_extract(repo, relfile, selector, opts, sources, log, extracted):
     for is_re, rule, count, frm, to in opts["subs"]:
         if is_re:
             found = len(re.findall(frm, text))
-            if found != count:
-                raise LostAnchor("%s %s: rule %s /%s/ matched %d times, declared %d" % (where, name, rule, frm, found, count))
+            if not _count_ok(found, count):
+                raise LostAnchor("%s %s: rule %s /%s/ matched %d times, declared %s" % (where, name, rule, frm, found, count))
             for mt in re.finditer(frm, text):
                 log.append({"rule": rule, "where": where, "fn": name, "before": mt.group(0), "after": mt.expand(to)})
             text = re.sub(frm, to, text)
         else:
             found = text.count(frm)
-            if found != count:
-                raise LostAnchor("%s %s: rule %s \"%s\" matched %d times, declared %d" % (where, name, rule, frm, found, count))
-            for _ in range(count):
+            if not _count_ok(found, count):
+                raise LostAnchor("%s %s: rule %s \"%s\" matched %d times, declared %s" % (where, name, rule, frm, found, count))
+            for _ in range(found):
                 log.append({"rule": rule, "where": where, "fn": name, "before": frm, "after": to})
             text = text.replace(frm, to)
     if not opts["noauto"]:
@@ -405,10 +418,23 @@ def _do_extract(repo, relfile, selector, opts, sources, log, extracted):
                 raise LostAnchor("%s %s: loop %d not found (%d loops)" % (where, name, n, len(loops)))
             inserts.append((loops[n - 1][1], "\n" + "\n".join(blk) + "\n", "loop%d" % n))
         rec["loops_in_source"] = len(loops)
+    if opts.get("bodystart"):
+        inserts.append((1, "\n" + "\n".join(opts["bodystart"]) + "\n", "bodystart"))
     for kind, n, sub, blk in opts["anchors"]:
         pos, k = -1, 0
         start = 0
-        while k < n:
+        if sub.startswith("^"):
+            # n-th line whose text (leading blanks stripped) starts with the given prefix
+            pref = sub[1:]
+            for lm in re.finditer(r"(?m)^([ \t]*)(.*)$", body):
+                if lm.group(2).startswith(pref):
+                    k += 1
+                    if k == n:
+                        pos = lm.start(2)
+                        break
+            if pos < 0:
+                raise LostAnchor("%s %s: anchor #%d \"%s\" not found" % (where, name, n, sub))
+        while not sub.startswith("^") and k < n:
             pos = body.find(sub, start)
             if pos < 0:
                 raise LostAnchor("%s %s: anchor #%d \"%s\" not found" % (where, name, n, sub))
